@@ -539,6 +539,8 @@ class TenSym(PySym):
                 return self.getitem(base, self.key(n.slice))
             if isinstance(base, dict):
                 return base[self.ex(n.slice)]
+            if isinstance(base, Obj) and callable(base.__dict__.get("_getitem")):
+                return base._getitem(base, self.key(n.slice))
             raise Unsupported("subscript of %s" % type(base).__name__)
         if isinstance(n, ast.Call):
             return self.call(n)
@@ -1089,6 +1091,9 @@ class TenSym(PySym):
                 self.bind(t, x)
         elif isinstance(target, ast.Subscript):
             base = self.ex(target.value)
+            if isinstance(base, list):
+                base[self.concrete(self.ex(target.slice))] = v
+                return
             if not isinstance(base, Ten):
                 raise Unsupported("store into %s" % type(base).__name__)
             try:
